@@ -49,7 +49,13 @@ theorem cycFft_exact (N a : Nat) (hNa : N = 2 ^ a) (hN : N ≤ 256) : ExactCyc N
     by_cases h : m = a + 8
     · right; rw [h, h256]
     · left; rw [h128]; exact pow_dvd_pow 2 (by omega)
-  obtain ⟨out, e, lo, go, ho⟩ := mulfft_spec hN0 default m p1 p2 l1 l2 (hgood x) (hgood y) (by omega) hb hdiv
+  have hkk : kOk KFUEL N = true := by
+    rw [hNa]
+    exact kOk_mono (a + 1) KFUEL _ (by
+      have : 2 ^ a ≤ 2 ^ 8 := by rw [← hNa]; exact hN
+      have := (Nat.pow_le_pow_iff_right (by decide : 1 < 2)).1 this
+      unfold KFUEL; omega) (kOk_pow2 a)
+  obtain ⟨out, e, lo, go, ho⟩ := mulfft_spec hN0 hkk default m p1 p2 l1 l2 (hgood x) (hgood y) (by omega) hb hdiv
   refine ⟨(out.map FI.value).toArray, ?_, by simp [lo, hm], ?_⟩
   · unfold cycFft
     rw [← hp1, ← hp2, e]; rfl
